@@ -445,6 +445,8 @@ def binop(I, st, op, a, b, inplace=False):
     if isinstance(a, Ref) or isinstance(b, Ref):
         ea = st.get(a) if isinstance(a, Ref) else None
         eb = st.get(b) if isinstance(b, Ref) else None
+        if models.is_view(st, a) or models.is_view(st, b):
+            raise Unsupported("binary %s on a dictionary view / an iterator object" % op)
         if (ea is not None and ea.kind == "nd") or (eb is not None and eb.kind == "nd"):
             if inplace and ea is not None and ea.kind == "nd" and op != "MatMult":
                 # `arr += x` on a numpy array updates the array IN PLACE: every other reference to it sees the new values
@@ -503,7 +505,8 @@ def binop(I, st, op, a, b, inplace=False):
             return
         if ea is not None and eb is not None and ea.kind == "set" and eb.kind == "set":
             r = models.set_binop(I, st, op, ea, eb)
-            if inplace:  # s |= t, s &= t, s -= t, s ^= t update the set object itself (every reference sees it)
+            if inplace and not ea.frozen:  # s |= t, s &= t, s -= t, s ^= t update the set object itself (every reference
+                # sees it); a frozenset has no in-place operators: `fs |= t` is fs = fs | t (a new object)
                 ea.items[:] = list(st.get(r).items)
                 yield st, a
                 return
@@ -561,6 +564,23 @@ def binop(I, st, op, a, b, inplace=False):
     if isinstance(a, _Inf) or isinstance(b, _Inf):
         raise Unsupported("arithmetic on float('inf')")
     if a is None or b is None or not (is_number(a) and is_number(b)):
+        # TypeError only where CPython certainly raises it: both operands are None / numbers / str / tuple and the
+        # combination is not one Python defines (str * int, int * str, tuple * int, int * tuple, str + str, tuple + tuple,
+        # str % x were handled above when concrete).  Anything else (a symbolic repeat count, bytes, uninterpreted
+        # values ...) is outside the model, not an error of the program.
+        def plain(v):
+            return v is None or is_number(v) or isinstance(v, (str, tuple))
+
+        def seq(v):
+            return isinstance(v, (str, tuple))
+
+        defined = ((op == "Mult" and ((seq(a) and is_number(b) and not is_reallike(b)) or (seq(b) and is_number(a) and not is_reallike(a))))
+                   or (op == "Add" and type(a) is type(b) and seq(a)) or (op == "Mod" and isinstance(a, str)))
+        if not (plain(a) and plain(b)) or defined:
+            if op == "Mult" and isinstance(a, int) and type(b) in (str, tuple):
+                yield st, a * b  # int * str, int * tuple
+                return
+            raise Unsupported("operator %s on %s and %s" % (op, type(a).__name__, type(b).__name__))
         yield st, exc("TypeError", "unsupported operand type(s) for %s: %r %r" % (op, type(a).__name__, type(b).__name__))
         return
     # numbers --------------------------------------------------------------------
